@@ -91,7 +91,18 @@ def r1_phase(ctx):
                 if bool(burn(k, n)) != (d <= 0):
                     bad_b.append((k, n))
     except GuardUnsupported as e:
-        ctx.unknown("C05.R1", f, st, f"guard outside the supported subset: {e}")
+        what = str(e)
+        try:
+            node_ = ast.parse(what, mode="eval").body
+        except SyntaxError:
+            node_ = None
+        if isinstance(node_, (ast.Name, ast.Attribute, ast.Subscript, ast.Call)) and any(U(x) == what for x in ast.walk(st.test)):
+            # a run-time quantity other than the iteration counter and the burn-in length takes part in the decision
+            ctx.violation("C05.R1", f, st, f"the memory-less decision also depends on `{what}`, which is neither the iteration number nor the burn-in length: "
+                          "the statistics do not follow the stochastic-approximation schedule whenever it flips the test")
+            ctx.ok("C05.R1", bf, bret, "(not decided: the guard above is outside the schedule)", construct="_is_burn_in exact (skipped)")
+        else:
+            ctx.unknown("C05.R1", f, st, f"guard outside the supported subset: {e}")
         return
     ctx.check(not bad, "C05.R1", f, st, "memory-less exactly for iteration - n_burn_in <= 1 (50 orderings x 4 burn-in lengths)",
               f"memory-less branch taken for (iteration, n_burn_in) in {bad[:4]}... : expected exactly when iteration - n_burn_in <= 1")
@@ -248,6 +259,7 @@ def rules(ctx):
 FITF = "src/leaspy/algo/fit/mcmc_saem.py"
 SF = "src/leaspy/algo/algo_with_samplers.py"
 VARIANTS = [
+    V("memoryless-while-tempered", "src/leaspy/algo/fit/mcmc_saem.py", "== 1 + self.algo_parameters[\"n_burn_in_iter\"]\n", "== 1 + self.algo_parameters[\"n_burn_in_iter\"]\n            or self.temperature_inv < 1.0\n", "C05.R1"),
     V("burnin-strict", SF, "return self.current_iteration <= self.algo_parameters[\"n_burn_in_iter\"]", "return self.current_iteration < self.algo_parameters[\"n_burn_in_iter\"]", "C05.R1"),
     V("no-first-iteration-reset", FITF, "        if (\n            self._is_burn_in()\n            or self.current_iteration == 1 + self.algo_parameters[\"n_burn_in_iter\"]\n        ):", "        if self._is_burn_in():", "C05.R1"),
     V("reset-one-late", FITF, "self.current_iteration == 1 + self.algo_parameters[\"n_burn_in_iter\"]", "self.current_iteration <= 2 + self.algo_parameters[\"n_burn_in_iter\"]", "C05.R1"),
